@@ -59,7 +59,7 @@ def _tonic(evs):
     return out
 
 
-def q_seq(name, spec, pitch, nrange, key=None, wait=(11, 13), near=None, max_paths=200000, nowrap=False, mid=None):
+def q_seq(name, spec, pitch, nrange, key=None, wait=(11, 13), near=None, max_paths=200000, nowrap=False, mid=None, fresh="rel"):
     spec = list(spec)
     if key is not None:
         spec = [("KS", KEYS[key])] + spec
@@ -80,6 +80,10 @@ def q_seq(name, spec, pitch, nrange, key=None, wait=(11, 13), near=None, max_pat
             ctx.assume(and_([and_(i.pitch + n >= LO, i.pitch + n <= HI) for i in b.notes]))
         orig = b.all_events
         seq = rel_sequence(b.msgs)
+        if fresh == "both":
+            seq.abs                      # the absolute view exists before the call and must follow the transposition
+        elif fresh == "abs":
+            seq = Sequence(absolute_sequence=seq.abs)
         shifted = seq.transpose(n)
         obs = _oracle(ctx, b, n, seq, shifted)
         if not shifted:
@@ -93,7 +97,7 @@ def q_seq(name, spec, pitch, nrange, key=None, wait=(11, 13), near=None, max_pat
           "duration_kept_when_not_wrapped", "key_defined", "roundtrip_restores"]
     if key is not None:
         cl.append("key_transposed")
-    return Query(f"seq/{name}/key{key}/n{nrange[0]}..{nrange[1]}/w{wait[0]}..{wait[1]}{'/nowrap' if nowrap else ''}", fn, cl,
+    return Query(f"seq/{name}/key{key}/n{nrange[0]}..{nrange[1]}/w{wait[0]}..{wait[1]}{'/nowrap' if nowrap else ''}{'/' + fresh if fresh != 'rel' else ''}", fn, cl,
                  desc=f"Sequence.transpose(n) shape {name} key {key}", max_paths=max_paths)
 
 
@@ -139,6 +143,9 @@ def queries(tier, seed):
     # two notes, no octave wrap: every duration / wait symbolic (nothing is hashed on these paths)
     qs.append(q_seq("n2", N2, (LO, HI), (-87, 87), wait=(1, 24), nowrap=True))
     qs.append(q_seq("n2s", N2S, (LO, HI), (-87, 87), wait=(1, 24), nowrap=True))
+    qs.append(q_seq("n2", N2, (LO, HI), (-87, 87), wait=(1, 24), nowrap=True, fresh="both"))
+    qs.append(q_seq("n2s", N2S, (LO, HI), (-87, 87), wait=(1, 24), nowrap=True, fresh="abs"))
+    qs.append(q_seq("n1", N1, (59, 61), (-13, 13), key=(seed + 5) % 15, fresh="both"))
     # two notes, wraps allowed: one pitch mid-range, one within 3 of a limit; waits concrete (the re-quantisation
     # after a wrap forks on every duration value)
     qs.append(q_seq("n2", N2, (LO, HI), (-15, 15), wait=(12, 12), near=[1], mid=[0]))
